@@ -145,7 +145,8 @@ def rule_idle(ctx: Ctx) -> None:
         ctx.check(fn is not None and fn.qualname == f"{RD}._dispatch_loop", "C15.3", "_on_idle is called only from the dispatch loop", fn, c, "ok",
                   "another caller runs idle handlers")
     idle = ctx.func(f"{TP}.idle")
-    ctx.check("return len(self._tasks) == 0" in ast.unparse(idle.node), "C15.3", "idle means no tracked task", idle, idle.node, "len(tasks) == 0",
+    rets_ = [ast.unparse(r.value).replace(" ", "") for r in C.walk_shallow(idle.node) if isinstance(r, ast.Return) and r.value is not None]
+    ctx.check(len(rets_) == 1 and rets_[0] in ("len(self._tasks)==0", "notself._tasks", "0==len(self._tasks)", "notlen(self._tasks)"), "C15.3", "idle means no tracked task", idle, idle.node, "len(tasks) == 0",
               "idle no longer means 'no tracked task'")
     n = 0
     for name, fn in sorted(ctx.repo.methods_of(TP).items()):
